@@ -12,7 +12,7 @@ CHECKS = {
  'C18': dict(cat='proof', tech='Rocq proof (glob matcher = declarative Matches relation; first-match, default direction, directory-rule, rooted-pattern and parse theorems for arbitrary rule lists; selection predicate) + correspondence with libc fnmatch, the repo fnmatch.c, filter_* direct calls and list/check/fix on generated trees',
              text='The include/exclude decision procedure is proved against its declarative meaning for all rule lists and paths; the matcher and filters are executed against libc and the real elem.c on ~60k generated cases per run and against the real binary on generated configurations and trees with an independent tree walk as oracle.',
              ref='4/C18'),
- 'C06': dict(cat='proof', tech='Rocq proof (inductive invariant MapOK/ParOK of the sync-loop model for all states, file-system contents, read faults and stop points; save normalisation; reachability over load/scan/sync/save/info/touch/fix-parity-write steps under cross-length hash injectivity, shown necessary by a witness) + one-step command-level correspondence of the sync loop + independent map/parity oracles after every command of generated histories',
+ 'C06': dict(cat='proof', tech='Rocq proof (inductive invariant MapOK/ParOK of the sync-loop model for all states, file-system contents, read faults and stop points; save normalisation; reachability over load/scan/sync/save/info/touch/fix-parity-write steps under cross-length hash injectivity, shown necessary by a witness; with parity WRITE faults: every stripe recorded synced and not marked bad has valid parity, for the faulty loop of the C08 model, any fault assignment, io mode and schedule) + one-step command-level correspondence of the sync loop + independent map/parity oracles after every command of generated histories',
              text='The invariant "every all-BLK stripe has parity encoding blocks that hash to the recorded hashes, and the block map is well formed" is proved inductive over load/sync/save rounds of the faithful sync model (parity-write faults excluded and refuted separately); the model is replayed against the real sync on every generated history and an independent decoder + GF reference recompute every synced stripe after every real command.',
              ref='4/C06'),
  'C15': dict(cat='proof', tech='Rocq proof (plan selection: bad always, full/new/bad plans, percentage quota, age limit, oldest-first with tie rule; honest bookkeeping; eventual coverage by default scrubs) + command-level correspondence under a steered clock',
